@@ -19,7 +19,7 @@ class SimNet:
     """All simulated hosts of one run."""
 
     def __init__(self, kernel, rng, latency=0.0005, sndbuf=65536, short_write_p=0.0, max_segment=None,
-                 jitter=0.0, connect_delay=0.001, eagain_p=0.0):
+                 jitter=0.0, connect_delay=0.001, eagain_p=0.0, coalesce=0.0):
         self.kernel = kernel
         self.rng = rng
         self.latency = latency
@@ -29,6 +29,9 @@ class SimNet:
         self.eagain_p = eagain_p
         self.max_segment = max_segment
         self.connect_delay = connect_delay
+        # delivery instants are rounded up to multiples of this quantum: what is sent within one quantum reaches the
+        # receiver in one piece (TCP coalescing: several messages per recv()), in order
+        self.coalesce = coalesce
         self.listeners: dict = {}
         self.conn_count = 0
         self.taps: list = []  # callables(direction_label, conn_id, bytes)
@@ -41,9 +44,12 @@ class SimNet:
         return None if ref is None else ref()
 
     def delay(self):
-        if self.jitter:
-            return self.latency + self.rng.random() * self.jitter
-        return self.latency
+        d = self.latency + self.rng.random() * self.jitter if self.jitter else self.latency
+        if self.coalesce:
+            q = self.coalesce
+            now = self.kernel.now
+            d = (int((now + d) / q) + 1) * q - now
+        return d
 
 
 def _err(code, text=None):
